@@ -12,8 +12,8 @@ import tempfile
 VERIF = os.path.dirname(os.path.dirname(os.path.abspath(__file__)))
 REPO = os.environ.get("BPVERIF_REPO", "/repo")
 SPEC = os.path.join(VERIF, "spec")
-EVIDENCE = os.path.join(VERIF, "evidence")
-REPLAYS = os.path.join(VERIF, "replays")
+EVIDENCE = os.environ.get("BPVERIF_EVIDENCE", os.path.join(VERIF, "evidence"))     # redirected by the seed regression only
+REPLAYS = os.environ.get("BPVERIF_REPLAYS", os.path.join(VERIF, "replays"))
 PY = "/venv/bin/python"
 
 REPO_COMPILER = os.path.join(REPO, "compiler")
